@@ -40,6 +40,10 @@ pub struct Registry {
     pub transpose_methods: BTreeMap<String, Sig>,
     /// known register structs: name -> list of element types with impls
     pub reg_structs: BTreeMap<String, Vec<String>>,
+    /// free functions with an `R: SimdRegister<T> + TransposeMatrix<T>` parameter
+    pub transpose_fns: BTreeSet<String>,
+    /// (struct, elem) pairs with an `impl TransposeMatrix<elem> for struct`
+    pub transpose_insts: Vec<(String, String)>,
 }
 
 pub enum SelfMode {
@@ -88,6 +92,15 @@ pub struct Ctx<'a> {
     pub intrinsics: BTreeSet<String>,
     /// trait methods called on Self / other impls: (struct, elem, method)
     pub calls: BTreeSet<(String, String, String)>,
+    /// the enclosing function has a `TransposeMatrix` dictionary `RT`
+    pub has_rt: bool,
+    /// depth of enclosing regions translated to `Option <result>`
+    pub may_return: usize,
+    /// analysis switch: ignore assignments on paths that end in `return` (their effect is returned, not kept)
+    pub skip_returning: std::cell::Cell<bool>,
+    /// calls to element-type-specific routines on transmuted views become `ext_<name>` parameters
+    pub view_calls: bool,
+    pub ext_calls: Vec<String>,
 }
 
 pub struct Out {
@@ -126,6 +139,11 @@ impl<'a> Ctx<'a> {
             consts: BTreeSet::new(),
             intrinsics: BTreeSet::new(),
             calls: BTreeSet::new(),
+            has_rt: false,
+            may_return: 0,
+            skip_returning: std::cell::Cell::new(false),
+            view_calls: false,
+            ext_calls: vec![],
         }
     }
 
@@ -304,7 +322,10 @@ impl<'a> Ctx<'a> {
             },
             syn::Expr::If(i) => {
                 self.assigned_expr(&i.cond, bound, acc, aliases);
-                self.assigned_block(&i.then_branch.stmts, bound, acc, aliases);
+                let returns = matches!(i.then_branch.stmts.last(), Some(syn::Stmt::Expr(syn::Expr::Return(_), _)));
+                if !(self.skip_returning.get() && returns) {
+                    self.assigned_block(&i.then_branch.stmts, bound, acc, aliases);
+                }
                 if let Some((_, el)) = &i.else_branch {
                     self.assigned_expr(el, bound, acc, aliases);
                 }
@@ -312,7 +333,13 @@ impl<'a> Ctx<'a> {
             syn::Expr::Block(b) => self.assigned_block(&b.block.stmts, bound, acc, aliases),
             syn::Expr::Unsafe(u) => self.assigned_block(&u.block.stmts, bound, acc, aliases),
             syn::Expr::Call(c) => {
+                // `mem::transmute(x)` re-views `x`, it does not write through it
+                let is_transmute = tok(&c.func).replace(' ', "").contains("transmute");
                 for a in &c.args {
+                    if is_transmute {
+                        self.assigned_expr(a, bound, acc, aliases);
+                        continue;
+                    }
                     if let Some(b) = self.ptr_base_of(a, aliases) {
                         self.note_assign(&b, bound, acc);
                     }
@@ -334,7 +361,9 @@ impl<'a> Ctx<'a> {
             syn::Expr::Paren(p) => self.assigned_expr(&p.expr, bound, acc, aliases),
             syn::Expr::Return(r) => {
                 if let Some(x) = &r.expr {
-                    self.assigned_expr(x, bound, acc, aliases)
+                    if !self.skip_returning.get() {
+                        self.assigned_expr(x, bound, acc, aliases)
+                    }
                 }
             },
             syn::Expr::Unary(u) => self.assigned_expr(&u.expr, bound, acc, aliases),
